@@ -56,6 +56,10 @@ def _apply(app, rule, val, source, rec):
         return None
     if k == "nc":
         return NotCompleted("FAIL", app, f"user{rule[1]}", source=rec)
+    if k == "seqs":  # a real sequence collection (for pipelines ending in write_seqs)
+        import cogent3
+
+        return cogent3.make_unaligned_seqs({"a": "ACGT" + "A" * (val % 7), "b": "GGT"}, moltype="dna", info={"source": source})
     raise ValueError(rule)
 
 
